@@ -615,7 +615,7 @@ func (c *control) dirJustify(colon, at bool, params []any) {
 			break
 		}
 	}
-	if padCnt-(len(segments)-1)*minpad < 0 {
+	if 0 < colinc && padCnt-(len(segments)-1)*minpad < 0 {
 		padCnt += (-padCnt / colinc) + colinc
 	}
 	segCnt := len(segments) - 1
